@@ -31,7 +31,7 @@ package executor
 // primary-key text) the other image has a row under the same key and EVERY field of the reference row
 // was compared equal (datasource.DeepEqual, abstract: deq) with the field of that name in the other row.
 // k, f stand for an arbitrary row key and field name. Abstract: how rows are keyed (rowListToMap).
-//@ ext seata.apache.org/seata-go/pkg/datasource/sql/datasource.DeepEqual
+//@ extlocal seata.apache.org/seata-go/pkg/datasource/sql/datasource.DeepEqual
 //@   ensures result == ufb("deq", x, y)
 //@ func rowListToMap
 //@   trusted
